@@ -53,7 +53,7 @@ theorem syndrome_zero (k : Nat) (hk : 1 ≤ k) (d : Word) :
     xorAll (encode k d) = false := by
   refine ⟨encode_length k d, ?_, ?_⟩
   · rw [encode_eq, List.drop_one, List.tail_cons, computeSyndrome_codeword, numCheck_computeN k hk]
-    simp
+    rw [List.map_const', List.length_range]
   · rw [encode_eq, xorAll_cons]
     simp
 
